@@ -248,6 +248,7 @@ func (n *deviateReplace) propertyAction(target, property parse.Node) error {
 func (c *Compiler) processDeviations(module *parse.Module) {
 
 	nod := module.GetModule()
+	verifPhase("deviate", nod.Name())
 
 	children := nod.ChildrenByType(parse.NodeDeviation)
 	for _, a := range children {
